@@ -214,10 +214,42 @@ def _rt_one(cmds, SVGPath):
     return "returned", None, path.d
 
 
+def evaluate_roundtrip_long(case):
+    """one command carrying n argument sets (printed as one run of numbers): serialise, parse back"""
+    import collections
+
+    from picosvg.svg_types import SVGPath
+
+    outs = collections.Counter()
+    nts = set()
+    viols = []
+    n = 0
+    for sets in (1, 2, 3, 64, 128, 129, 130, 257, 300):
+        for cmd in "LlTtHhVvCcSsQqAa":
+            na = _COORD_ARGS[cmd.lower()]
+            args = []
+            for k in range(sets):
+                a = [float((k * 7 + j * 3) % 19) + 0.5 * (j % 2) for j in range(na)]
+                if cmd in "Aa":
+                    a[3], a[4] = k % 2, (k // 2) % 2
+                args += a
+            cmds = [("M", (2.0, 3.0)), (cmd, tuple(args)), ("z", ())]
+            n += 1
+            o, why, d = _rt_one(cmds, SVGPath)
+            outs["long/" + o] += 1
+            nts.add(core.h64(repr((cmd, sets))))
+            if why and len(viols) < 10:
+                viols.append({"sig": {"kind": "roundtrip", "outcome": o, "long": True}, "case": {"fam": "rt", "cmds": [[c, list(x)] for c, x in cmds]}, "detail": {"why": why[:600]}})
+    return {"n": n, "outs": outs, "nts": nts, "viol": viols, "sample": None}
+
+
 def evaluate_roundtrip(case):
     import collections
 
     from picosvg.svg_types import SVGPath
+
+    if case.get("mode") == "long":
+        return evaluate_roundtrip_long(case)
 
     vals = case["vals"]
     a = case["a"]
@@ -281,7 +313,53 @@ def _base_strings():
     return base
 
 
+def _token_split(s):
+    import re
+
+    return re.findall(r"[A-Za-z]|[-+]?(?:\d+\.?\d*|\.\d+)(?:[eE][-+]?\d+)?|,", s)
+
+
+def wsp_placement_strings():
+    """every whitespace character (and CR LF, a run of blanks) inserted at every token boundary of the base strings - before and
+    after command letters, between numbers, at the very start and the very end"""
+    out = []
+    for b in _base_strings() + ["M0 0a11.78 10.28 0 10.044 6.1", "M5 5A1 1 0 01.05.5 2 2 0 10.5.25", "M1 1L2 2Z M3 3 4 4z"]:
+        toks = _token_split(b)
+        out.append(b)
+        for w in (" ", "\t", "\n", "\r", "\r\n", "   ", "\n\t "):
+            for i in range(len(toks) + 1):
+                out.append(_join_tokens(toks[:i]) + w + _join_tokens(toks[i:]))
+            out.append(w.join(toks))
+    return out
+
+
+def _join_tokens(toks):
+    """concatenate tokens, putting a blank only where two numbers would otherwise fuse"""
+    s = ""
+    for t in toks:
+        if s and (s[-1].isdigit() or s[-1] == ".") and (t[0].isdigit() or t[0] == "."):
+            s += " "
+        s += t
+    return s
+
+
+def long_command_strings():
+    """one command carrying many argument sets (implicit repetition): 129, 257, 300 coordinate pairs; many short commands"""
+    out = []
+    for n in (128, 129, 130, 257, 300):
+        pts = " ".join(f"{i % 17},{(i * 7) % 23}" for i in range(n))
+        out += ["M" + pts, "M0 0L" + pts + "z", "M0,0 l" + pts.replace(",", " "), "M0 0T" + pts, "M1 1" + "".join(f"L{i} {i + 1}" for i in range(n))]
+        out.append("M0 0C" + " ".join(f"{i} {i + 1} {i + 2} {i} {i + 3} {i + 1}" for i in range(n // 2)))
+        out.append("M0 0A" + " ".join(f"{1 + i % 3} 2 0 0 1 {i + 1} {i}" for i in range(n // 3)))
+    return out
+
+
 def cases(tier, seed):
+    ws = wsp_placement_strings()
+    for i in range(0, len(ws), 200):
+        yield {"fam": "list", "strings": ws[i : i + 200]}
+    yield {"fam": "list", "strings": long_command_strings()}
+    yield {"fam": "d", "mode": "long"}
     L = 5 if tier == "quick" else 6
     # (a): blocks keyed by the first two characters
     for length in range(0, L + 1):
